@@ -244,7 +244,9 @@ class Canon:
             self.assign_forms(body)
             self.match_ints(body)
             self.match_bools(body)
-            self.continue_guards(body)
+            # (continue_guards is deliberately NOT run: `if c { continue; }` in a numerical loop is a conditional skip of the work below it, which is what
+            #  several confirmed mutants add; un-nesting it made them look like ordinary guarded updates to rules that do not ask for unconditionality.
+            #  The price is one neutral patch, c19-p2.)
             self.if_assign(body)
             self.mem_replace(body)
             self.loop_to_while(body)
